@@ -66,7 +66,7 @@ static CO_ERR COTSyncCycleWrite(struct CO_OBJ_T *obj, struct CO_NODE_T *node, vo
     CO_SYNC *sync;
     uint32_t nus, ous;
 
-    CO_UNUSED(size);
+    ASSERT_EQU_ERR(size, 4u, CO_ERR_BAD_ARG);
 
     result  = CO_ERR_NONE;
     sync    = &node->Sync;
